@@ -2554,6 +2554,10 @@ impl QueryJob {
         // Parsed session rules for validation (arity/aggregation compatibility)
         let mut session_rules_parsed: Vec<crate::ast::Rule> = Vec::new();
 
+        // Session (non-persistent) schema declarations of this request
+        let mut request_schemas: std::collections::HashMap<String, RelationSchema> =
+            std::collections::HashMap::new();
+
         let stmt_exec_start = Instant::now();
         for line in program_text.lines() {
             let line = line.trim();
@@ -2583,10 +2587,12 @@ impl QueryJob {
                                 let result = if decl.persistent {
                                     storage.register_or_update_schema_in(&kg_name, relation_schema)
                                 } else {
-                                    storage.register_or_update_session_schema_in(
-                                        &kg_name,
-                                        relation_schema,
-                                    )
+                                    // A session schema belongs to this request only. It used to
+                                    // be stored in the knowledge graph's shared schema catalog,
+                                    // where it took precedence over the persistent schema for
+                                    // every other client's inserts until the next restart.
+                                    request_schemas.insert(decl.name.clone(), relation_schema);
+                                    Ok(())
                                 };
 
                                 match result {
@@ -2666,9 +2672,20 @@ impl QueryJob {
                                     continue;
                                 }
 
-                                // Validate against schema if one exists (per-KG isolation)
-                                if let Err(e) =
-                                    storage.validate_tuples_in(&kg_name, &op.relation, &tuples)
+                                // Validate against schema if one exists (per-KG isolation),
+                                // and against a session schema declared earlier in this request
+                                let request_check = match request_schemas.get(&op.relation) {
+                                    Some(schema) => crate::schema::ValidationEngine::new()
+                                        .validate_batch(schema, &tuples)
+                                        .map(|_| ())
+                                        .map_err(|e| {
+                                            crate::storage::StorageError::Other(e.to_string())
+                                        }),
+                                    None => Ok(()),
+                                };
+                                if let Err(e) = storage
+                                    .validate_tuples_in(&kg_name, &op.relation, &tuples)
+                                    .and(request_check)
                                 {
                                     messages.push(format!(
                                         "Insert rejected for '{}': {}",
